@@ -817,6 +817,9 @@ func (f *Frame) link(st *State, p *Ptr, elem types.Type) *Link {
 }
 
 func (vc *VC) tid(t types.Type) int {
+	if b, ok := t.(*types.Basic); ok && b.Kind() < types.UntypedBool {
+		t = types.Typ[b.Kind()] // byte and uint8, rune and int32 are one dynamic type
+	}
 	k := t.String()
 	if id, ok := vc.eng.tidIDs[k]; ok {
 		return id
